@@ -68,9 +68,9 @@ fn main() {
                 _ => Mode::Append,
             };
             let chunks: Vec<usize> = args[5..].iter().map(|s| s.parse().unwrap()).collect();
-            // "stream-big": a stream of 128 pages, so that one work() call can
-            // find more than 65536 samples waiting.
-            let pages = if args[4] == "stream-big" { 128 } else { 4 };
+            // "stream-big": a stream of 512 pages (2 MiB), so that one work() call
+            // can find hundreds of thousands of samples waiting.
+            let pages = if args[4] == "stream-big" { 512 } else { 4 };
             let capacity = pages * 4096 / 4;
             rustradio::verif::set_default_stream_size(Some(pages * 4096));
             let is_stream = args[4].starts_with("stream");
